@@ -309,10 +309,18 @@ func runCheck(def *CheckDef, tier string, seed int64, repo string, workers int, 
 	if v := os.Getenv("VERIF_MAXREPLAY"); v != "" {
 		maxRepl, _ = strconv.Atoi(v)
 	}
+	// one counterexample per violated obligation and harness (at most three harnesses per obligation): a prediction
+	// that one harness cannot reproduce natively (a deadlock that needs a second goroutine, say) may be reproducible
+	// through another
+	selHarness := map[string]bool{}
+	selCount := map[string]int{}
 	for _, v := range viols {
 		k := v.Kind + "|" + v.Label
 		perLabel[k]++
-		if perLabel[k] <= 1 && len(vsel) < maxRepl {
+		kh := k + "|" + v.Tape.Harness
+		if !selHarness[kh] && selCount[k] < 3 && len(vsel) < maxRepl {
+			selHarness[kh] = true
+			selCount[k]++
 			vsel = append(vsel, v)
 		}
 	}
@@ -384,6 +392,12 @@ func runCheck(def *CheckDef, tier string, seed int64, repo string, workers int, 
 	exit := 0
 	var violLines, knownLines []string
 	reproduced := map[string]bool{}
+	confirmedLabel := map[string]bool{}
+	for _, it := range items {
+		if it.kind == "violation" && it.ok {
+			confirmedLabel[it.tape.VKind+"|"+it.tape.Label] = true
+		}
+	}
 	for _, it := range items {
 		switch it.kind {
 		case "validation":
@@ -398,6 +412,8 @@ func runCheck(def *CheckDef, tier string, seed int64, repo string, workers int, 
 			if it.ok {
 				violLines = append(violLines, fmt.Sprintf("VIOLATION property=%s replay=%s", def.ID, it.path))
 				fmt.Printf("  violated: %s [%s] at %s (harness %s %v) native=%s\n", it.tape.Label, it.tape.VKind, it.tape.Where, it.tape.Harness, it.tape.Params, it.out.Outcome)
+			} else if confirmedLabel[it.tape.VKind+"|"+it.tape.Label] {
+				fmt.Printf("  note: the same obligation did not reproduce through harness %s (reproduced through another)\n", it.tape.Harness)
 			} else {
 				inconcl = append(inconcl, fmt.Sprintf("engine-mismatch: counterexample %s (%s) did not reproduce natively: %s failed=%v", it.path, it.tape.Label, it.out.Outcome, it.out.Failed))
 			}
